@@ -102,7 +102,8 @@ use cw_multi_test::{App, AppBuilder, Contract, ContractWrapper, Executor as _};
 use cw_utils::{Duration, Threshold, ThresholdResponse};
 use std::cell::RefCell;
 
-const DENOMS: [&str; 2] = ["ucosm", "uatom"];
+// `UCOSM`: a coin that differs from `ucosm` only in letter case (bank denoms are case sensitive)
+const DENOMS: [&str; 3] = ["ucosm", "uatom", "UCOSM"];
 
 thread_local! {
     /// handler-level results of every flex `execute` of the current transaction (DESIGN §2.2: recording wrapper)
@@ -681,7 +682,7 @@ impl FlexScen {
             })
             .collect();
         let bank: Vec<String> =
-            u.iter().map(|a| format!("{}:{}:{}", a, self.bank_bal(a, DENOMS[0]), self.bank_bal(a, DENOMS[1]))).collect();
+            u.iter().map(|a| format!("{}:{}:{}:{}", a, self.bank_bal(a, DENOMS[0]), self.bank_bal(a, DENOMS[1]), self.bank_bal(a, DENOMS[2]))).collect();
         let cw20: Vec<String> = u.iter().map(|a| format!("{}:{}", a, self.cw20_bal(a))).collect();
         let allow: Vec<String> = self
             .pool
@@ -1075,7 +1076,7 @@ impl FlexScen {
         } else {
             (thr, period, deposit)
         };
-        let mut bank: Vec<String> = self.pool.iter().map(|a| format!("{}:{}:{}", a, rng.below(60), rng.below(30))).collect();
+        let mut bank: Vec<String> = self.pool.iter().map(|a| format!("{}:{}:{}:{}", a, rng.below(60), rng.below(30), rng.below(40))).collect();
         // an empty treasury (1/3): the multisig then holds exactly the deposits taken, so a proposal spending
         // the deposit denom leaves it short of another proposal's refund
         let treasury = if story || rng.chance(1, 3) { 0 } else { rng.below(40) };
@@ -1413,6 +1414,10 @@ impl FlexScen {
                 match rng.below(20) {
                     0 => "-".to_string(),
                     1 => format!("{amt}{other}"),
+                    // the right amount of a coin whose name differs from the deposit denom only in letter case
+                    7 | 8 if d.to_uppercase() != d || d.to_lowercase() != d => {
+                        format!("{amt}{}", if d.to_lowercase() == d { d.to_uppercase() } else { d.to_lowercase() })
+                    }
                     2 => format!("{}{}", amt.saturating_sub(1), d),
                     3 => format!("{}{}", amt + 1, d),
                     4 => format!("{amt}{d},1{other}"),
